@@ -1,8 +1,8 @@
 (* C18: bitset, array, PRNGs and sort agree with their standard references.
    Statements only; the proofs are in coq/Bits/*.v. *)
-From Coq Require Import List NArith Arith Bool Permutation.
+From Coq Require Import List NArith ZArith Arith Bool Permutation.
 From FV Require Import Bits.BitsetModel Bits.BitsetBase Bits.BitsetProofs Bits.BitsetShift Bits.BitsetQueries
-  Bits.BitsetCount Bits.BitsetTop Bits.PrngModel Bits.PcgProofs Bits.MtProofs Bits.SortModel Bits.SortProofs.
+  Bits.BitsetCount Bits.BitsetTop Bits.PrngModel Bits.PcgProofs Bits.LcgPeriod Bits.PcgTermination Bits.MtProofs Bits.SortModel Bits.SortProofs.
 Import ListNotations.
 
 (* ================================================================================================
@@ -104,8 +104,7 @@ Proof. vm_compute. reflexivity. Qed.
 
 (* bounded draw: the value is below the bound, it is r mod bound for the first output r that reaches
    the threshold, and the threshold computed as -bound % bound in uint32 is 2^32 mod bound.
-   FULL STATEMENT NOT PROVED (hence C18_pcg_bounded_terminates_partial below): "for every seed there
-   is a fuel for which the draw returns" needs the full-period theorem of the 64-bit LCG. *)
+   Termination for every seed is C18_pcg_bounded_terminates below. *)
 Theorem C18_pcg_bounded : forall fuel g bound g' v, 0 < bound < 2 ^ 32 ->
   pcg_threshold bound = 2 ^ 32 mod bound /\
   pcg_bounded fuel g bound <> DDivZero /\
@@ -115,12 +114,30 @@ Theorem C18_pcg_bounded : forall fuel g bound g' v, 0 < bound < 2 ^ 32 ->
                2 ^ 32 mod bound <= pcg_out k g /\ v = pcg_out k g mod bound /\ g' = pcg_iter (S k) g).
 Proof. exact pcg_bounded_all. Qed.
 Print Assumptions C18_pcg_bounded.
-(* what IS proved about termination: the loop returns as soon as one of the first [fuel] outputs
-   reaches the threshold (so OutOfFuel means: all of them were below 2^32 mod bound < bound). *)
-Theorem C18_pcg_bounded_terminates_partial : forall fuel g bound k, 0 < bound < 2 ^ 32 ->
-  (k < fuel)%nat -> 2 ^ 32 mod bound <= pcg_out k g -> exists g' v, pcg_bounded fuel g bound = DOk g' v.
-Proof. exact pcg_bounded_terminates_if. Qed.
-Print Assumptions C18_pcg_bounded_terminates_partial.
+(* Full period of x -> (a*x + c) mod 2^k for a = 1 (mod 4), c odd: from every x every residue is reached
+   within 2^k steps (k abstract; pcg uses k = 64, a = 6364136223846793005, c = (seq << 1) | 1). *)
+Theorem C18_lcg_full_period : forall (a c : Z) (k : nat), (a mod 4 = 1)%Z -> (c mod 2 = 1)%Z ->
+  forall x y, (0 <= x < 2 ^ Z.of_nat k)%Z -> (0 <= y < 2 ^ Z.of_nat k)%Z ->
+  exists n, (Z.of_nat n < 2 ^ Z.of_nat k)%Z /\ lcg_iter a c k n x = y.
+Proof. exact lcg_full_period. Qed.
+Print Assumptions C18_lcg_full_period.
+Example C18_lcg_nonvacuous : (* k = 4, a = 5, c = 3: the orbit of 0 is a permutation of 0..15 *)
+  map (fun n => lcg_iter 5 3 4 n 0%Z) (seq 0 16) = [0; 3; 2; 13; 4; 7; 6; 1; 8; 11; 10; 5; 12; 15; 14; 9]%Z.
+Proof. vm_compute. reflexivity. Qed.
+
+(* Termination of the rejection loop for EVERY seed, sequence and bound: some fuel makes the bounded draw
+   return a value below the bound; the same holds in every later generator state (uint64 state, odd
+   increment - preserved by plain and bounded draws). Uses the full period and a state with output 2^32-1. *)
+Theorem C18_pcg_bounded_terminates : forall seed seq bound, 0 < bound < 2 ^ 32 ->
+  (exists fuel g' v, pcg_bounded fuel (pcg_seed seed seq) bound = DOk g' v /\ v < bound /\ pcg_wf g') /\
+  (forall g, pcg_wf g -> pcg_wf (fst (pcg_next g)) /\
+     exists fuel g' v, pcg_bounded fuel g bound = DOk g' v /\ v < bound /\ pcg_wf g').
+Proof. exact pcg_bounded_terminates_all. Qed.
+Print Assumptions C18_pcg_bounded_terminates.
+Example C18_pcg_terminates_nonvacuous :
+  pcg_wf (pcg_seed 42 54) /\ pcg_output pcg_top_state = 4294967295 /\
+  (6364136223846793005 mod 4 = 1)%Z /\ (Z.of_N (pcg_inc (pcg_seed 42 54)) mod 2 = 1)%Z.
+Proof. split; [apply pcg_seed_wf|]. split; [apply pcg_top_output|]. split; vm_compute; reflexivity. Qed.
 Example C18_pcg_bounded_nonvacuous :
   exists g' v, pcg_bounded 100 (pcg_seed 42 54) 2147483649 = DOk g' v /\ v < 2147483649.
 Proof. eexists. eexists. split; [vm_compute; reflexivity|]. reflexivity. Qed.
